@@ -565,12 +565,15 @@ Fixpoint parse_digits (s : str) (acc : Z) : option Z :=
   | c :: r => if ((48 <=? c) && (c <=? 57))%N then parse_digits r (acc * 10 + (Z.of_N c - 48)) else None
   end.
 
+(* the optional sign in front of a numeral: (negative?, rest) *)
+Definition split_sign (s : str) : bool * str :=
+  match s with
+  | c :: r => if (c =? 45)%N then (true, r) else if (c =? 43)%N then (false, r) else (false, s)
+  | [] => (false, [])
+  end.
+
 Definition str_to_int (s : str) : res value :=
-  let '(neg, ds) := match s with
-                    | 45%N :: r => (true, r)
-                    | 43%N :: r => (false, r)
-                    | _ => (false, s)
-                    end in
+  let '(neg, ds) := split_sign s in
   match ds with
   | [] => Err None
   | _ => match parse_digits ds 0 with
@@ -579,6 +582,127 @@ Definition str_to_int (s : str) : res value :=
          | None => Err None
          end
   end.
+
+(* strconv.ParseFloat(s, 64) on plain decimal numerals  [+-] digits [. digits] [(e|E) [+-] digits]
+   (at least one mantissa digit, at least one exponent digit, nothing before or behind).
+   ParseFloat is correctly rounded, so whenever the exact decimal value is a binary64 value that value
+   is the answer; every other accepted text (inexact values, underflow to 0, underscores 1_000,
+   hexadecimal floats 0x1p4, inf / infinity / nan) is outside this model: Unsup.
+   A value of 2^1024 or more is the ErrRange error. *)
+Definition is_digit (c : N) : bool := ((48 <=? c) && (c <=? 57))%N.
+
+Fixpoint take_digits (s : str) : str * str :=
+  match s with
+  | c :: r => if is_digit c then let '(d, rest) := take_digits r in (c :: d, rest) else ([], s)
+  | [] => ([], [])
+  end.
+
+(* value of a digit string, most significant digit first *)
+Definition dec_val (ds : str) : Z := fold_left (fun acc c => acc * 10 + (Z.of_N c - 48)) ds 0.
+
+(* the characters by which the accepted texts outside the plain decimal syntax can be told:
+   i I n N (inf, infinity, nan), x X (hexadecimal), _ *)
+Definition float_special_char (c : N) : bool :=
+  ((c =? 105) || (c =? 73) || (c =? 110) || (c =? 78) || (c =? 120) || (c =? 88) || (c =? 95))%N.
+
+(* Some (negative?, mantissa digits as a number, decimal exponent): value = +-mant * 10^k *)
+Definition parse_float_syntax (s : str) : option (bool * Z * Z) :=
+  let '(neg, r0) := split_sign s in
+  let '(ip, r1) := take_digits r0 in
+  let '(fp, r2) := match r1 with c :: r => if (c =? 46)%N then take_digits r else ([], r1) | [] => ([], r1) end in
+  match ip ++ fp with
+  | [] => None
+  | _ =>
+      let mant := dec_val (ip ++ fp) in
+      let nf := Z.of_nat (length fp) in
+      match r2 with
+      | [] => Some (neg, mant, - nf)
+      | c :: r3 =>
+          if ((c =? 101) || (c =? 69))%N then
+            let '(eneg, r4) := split_sign r3 in
+            let '(ed, r5) := take_digits r4 in
+            match ed, r5 with
+            | _ :: _, [] => Some (neg, mant, (if eneg then - dec_val ed else dec_val ed) - nf)
+            | _, _ => None
+            end
+          else None
+      end
+  end.
+
+Definition two1024 : Z := 2 ^ 1024.
+
+Definition float_of_decimal (neg : bool) (mant k : Z) : res value :=
+  if mant =? 0 then Ok (VFloat (if neg then FNegZero else fl_zero))
+  else if 2000 <? Z.abs k then Unsup
+  else
+    let sm := if neg then - mant else mant in
+    if 0 <=? k then
+      if two1024 <=? mant * 10 ^ k then Err None
+      else match mkfl (sm * 10 ^ k) 0 with Some x => Ok (VFloat x) | None => Unsup end
+    else
+      let j := - k in
+      if mant mod 5 ^ j =? 0 then
+        match mkfl (sm / 5 ^ j) (- j) with Some x => Ok (VFloat x) | None => Unsup end
+      else Unsup.
+
+Definition str_to_float (s : str) : res value :=
+  if existsb float_special_char s then Unsup
+  else match parse_float_syntax s with
+       | Some (neg, mant, k) => float_of_decimal neg mant k
+       | None => Err None
+       end.
+
+(* ---------- round / floor / ceil / trunc (static functions outside Sem/Lib.v) ----------
+   floor, ceil, trunc are simpleOnlyFloatFunc: the argument goes through ToFloat (an int is converted)
+   and the answer is a FLOAT (math.Floor / Ceil / Trunc keep the sign of a zero result, infinities and NaN);
+   round answers an INT: Int(math.Round(f)), math.Round rounds halves away from zero; an int argument
+   is returned unchanged.  Conversions of floats outside int64 are left open by Go: Unsup. *)
+Definition n_round : str := [114;111;117;110;100]%N.
+Definition n_floor : str := [102;108;111;111;114]%N.
+Definition n_ceil : str := [99;101;105;108]%N.
+Definition n_trunc : str := [116;114;117;110;99]%N.
+
+Definition floor_z (m e : Z) : Z := if 0 <=? e then m * 2 ^ e else m / 2 ^ (- e).
+Definition ceil_z (m e : Z) : Z := if 0 <=? e then m * 2 ^ e else - ((- m) / 2 ^ (- e)).
+Definition trunc_z (m e : Z) : Z := if 0 <=? e then m * 2 ^ e else Z.quot m (2 ^ (- e)).
+Definition round_z (m e : Z) : Z :=
+  if 0 <=? e then m * 2 ^ e
+  else let a := (2 * Z.abs m + 2 ^ (- e)) / (2 * 2 ^ (- e)) in if m <? 0 then - a else a.
+
+Definition fl_int_valued (how : Z -> Z -> Z) (x : fl) : res value :=
+  match x with
+  | FFin m e =>
+      let z := how m e in
+      if (z =? 0) && (m <? 0) then Ok (VFloat FNegZero)
+      else match mkfl z 0 with Some r => Ok (VFloat r) | None => Unsup end
+  | _ => Ok (VFloat x)
+  end.
+
+Definition float_only_static (how : Z -> Z -> Z) (args : list value) : res value :=
+  match args with
+  | [VInt z] => match fl_of_int z with Some x => fl_int_valued how x | None => Unsup end
+  | [VFloat x] => fl_int_valued how x
+  | [VErrText _] => Unsup
+  | _ => Err None
+  end.
+
+Definition round_static (args : list value) : res value :=
+  match args with
+  | [VInt z] => Ok (VInt z)
+  | [VFloat (FFin m e)] => let z := round_z m e in if in_int64 z then Ok (VInt z) else Unsup
+  | [VFloat FNegZero] => Ok (VInt 0)
+  | [VFloat _] => Unsup
+  | [VErrText _] => Unsup
+  | _ => Err None
+  end.
+
+(* the four functions, all with one argument; None = not one of them *)
+Definition run_round_static (f : name) (args : list value) : option (res value) :=
+  if str_eqb f n_round then Some (round_static args)
+  else if str_eqb f n_floor then Some (float_only_static floor_z args)
+  else if str_eqb f n_ceil then Some (float_only_static ceil_z args)
+  else if str_eqb f n_trunc then Some (float_only_static trunc_z args)
+  else None.
 
 (* ---------- map methods (on entry lists in iteration order) ---------- *)
 
